@@ -38,7 +38,10 @@ Only these lexical normalisations are applied to copied text (each counted, see 
      check without the formatted panic message (Verus has no specification for core::panicking::assert_failed)
   N11 (only with option `option-map`) `RECV.map(|PAT| EXPR)` on an Option, with a closure body that is a plain expression (no
      `return`, `?`, `break`, `continue`), becomes `(match RECV { Some(PAT) => Some(EXPR), None => None })`: Option::map with the
-     closure inlined (Verus has no closures with patterns as parameters); if RECV is not an Option the result does not compile
+     closure inlined (Verus has no closures with patterns as parameters); if RECV is not an Option the result does not compile;
+     likewise `RECV.and_then(|PAT| EXPR)` becomes `(match RECV { Some(PAT) => EXPR, None => None })`.
+     With option `result-map` the same for a Result: `(match RECV { Ok(PAT) => Ok(BODY), Err(e) => Err(e) })`, BODY may be a block
+     (the closure is called exactly once, in the Ok case, so inlining it keeps its side effects where they were)
 No expression is rewritten otherwise. Ghost text (loop invariants, proof blocks) named in the unit template is spliced
 into bodies at loop ordinals / after exact statement texts, always on the same output line so that line numbers of the
 body still correspond to the source (annotation in place; ghost code only, erased at compile time).
@@ -815,27 +818,34 @@ def expand(template_path, repo):
             if not external:
                 body = norm.refpat(body)
                 # N11
-                if 'option-map' in opts:
+                if 'option-map' in opts or 'result-map' in opts:
                     while True:
                         sc11 = Scan(body)
                         m11 = None
-                        for mm in re.finditer(r'(\b[a-z_]\w*(?:\s*\.\s*[a-z_]\w*(?:\([^()]*\))?)+?)\s*\.\s*map\(\s*\|', body):
+                        for mm in re.finditer(r'(\b[a-z_]\w*(?:\s*\.\s*[a-z_]\w*(?:\([^()]*\))?)*?)\s*\.\s*(map|and_then)\(\s*\|', body):
                             if sc11.is_code(mm.start()):
                                 m11 = mm
                                 break
                         if not m11:
                             break
-                        po = body.index('(', body.index('map', m11.end(1)))
+                        po = body.index('(', body.index(m11.group(2), m11.end(1)))
                         pc = sc11.match[po]
                         inner = body[po + 1:pc]
                         cm = re.match(r'\s*\|([^|]*)\|\s*(.*)$', inner, re.S)
                         if not cm:
                             raise AnchorLost(f'{rel}: fn {qn}: N11: closure not recognised')
                         pat11, expr11 = cm.group(1).strip(), cm.group(2).strip()
-                        if re.search(r'\b(return|break|continue)\b|\?', expr11) or expr11.startswith('{'):
-                            raise AnchorLost(f'{rel}: fn {qn}: N11: closure body is not a plain expression')
-                        body = (body[:m11.start()] + f'(match {m11.group(1)} {{ Some({pat11}) => Some({expr11}), None => None }})'
-                                + body[pc + 1:])
+                        if re.search(r'\b(return|break|continue)\b|\?', expr11):
+                            raise AnchorLost(f'{rel}: fn {qn}: N11: closure body leaves the closure (return / ? / break / continue)')
+                        if 'result-map' in opts:
+                            body = (body[:m11.start()] + f'(match {m11.group(1)} {{ Ok({pat11}) => Ok({expr11}), Err(__vp_e) => Err(__vp_e) }})'
+                                    + body[pc + 1:])
+                        else:
+                            if expr11.startswith('{'):
+                                raise AnchorLost(f'{rel}: fn {qn}: N11: closure body is not a plain expression')
+                            some11 = expr11 if m11.group(2) == 'and_then' else f'Some({expr11})'
+                            body = (body[:m11.start()] + f'(match {m11.group(1)} {{ Some({pat11}) => {some11}, None => None }})'
+                                    + body[pc + 1:])
                         norm.counts['N11_option_map_closure_inlined'] += 1
                 # N9
                 while True:
